@@ -10,9 +10,9 @@ from pfxgen import Universe, SetSpec, fmt_rec_args, parse_rec_str, rec_str, hexa
 PROPS = {
     "C01": {
         "modules": ["RtrProps.C01"],
-        "theorems": ["Rtr.C01.validate_state", "Rtr.C01.validate_reasons", "Rtr.C01.wf_reachable",
-                     "Rtr.C01.depth_le_len", "Rtr.C01.validate_defined", "Rtr.C01.bits_link4", "Rtr.C01.bits_link6",
-                     "Rtr.C01.validate_state_table"],
+        "theorems": ["Rtr.C01.validate_state", "Rtr.C01.validate_state_table", "Rtr.C01.validate_reasons",
+                     "Rtr.C01.wf_reachable", "Rtr.C01.depth_le_len", "Rtr.C01.validate_defined",
+                     "Rtr.C01.bits_link4", "Rtr.C01.bits_cover4"],
     },
     "C02": {
         "modules": ["RtrProps.C02"],
@@ -21,7 +21,7 @@ PROPS = {
     },
     "C09": {
         "modules": ["RtrProps.C09"],
-        "theorems": ["Rtr.C09.log_replays", "Rtr.C09.log_exact", "Rtr.C09.notifyDiff_net", "Rtr.C09.free_log"],
+        "theorems": ["Rtr.C09.log_replays", "Rtr.C09.log_exact", "Rtr.C09.step_logOK", "Rtr.C09.free_log"],
     },
 }
 
@@ -223,7 +223,7 @@ def run(pid, tier):
 
     r = vlib.rng(pid)
     cases = []
-    nh = {"quick": 400, "thorough": 8000}[tier]
+    nh = {"quick": 1500, "thorough": 20000}[tier]
     # corpus first
     cdir = os.path.join(vlib.VERIF, "corpus", "pfx")
     corpus = []
@@ -249,7 +249,7 @@ def run(pid, tier):
     cases.append(gen_bits(r, 300 if tier == "quick" else 5000))
 
     stats = {"histories": len(cases), "ops": 0, "rc": {}, "states": {}, "max_depth4": 0, "max_depth6": 0,
-             "pullup2": 0, "reloads": 0, "corpus": len(corpus)}
+             "reloads": 0, "corpus": len(corpus)}
     distinct = set()
     divergences = []
     oracle_fails = []
